@@ -461,6 +461,13 @@ func (g *graph) addBranch(startNode string, branch *GraphBranch, skipData bool) 
 	if _, ok := g.handlerPreBranch[startNode]; !ok {
 		g.handlerPreBranch[startNode] = [][]handlerPair{}
 	}
+	// The graph keeps its own copy of the branch: the index and the data-flow flag set below belong to
+	// this graph. Written into the caller's value they leaked into every other graph the same value was
+	// added to: a Workflow marks its branches as carrying no data, so a Graph that received the value
+	// afterwards left the branch's start node out of the data predecessors of the end nodes, and the
+	// selected node ran on an empty input.
+	own := *branch
+	branch = &own
 	branch.idx = len(g.handlerPreBranch[startNode])
 
 	// a passthrough start node takes the condition's input type only while its own type is
